@@ -81,10 +81,37 @@ def parseOutN (s : String) : Option (List OutW) :=
     pure (List.replicate k w)
   | _ => none
 
-/-- line content `msgkey:lvl:site:tr` -/
-def parseLine (m l s t : String) : Option Line := do
+/-- line content `msgkey:lvl:file:line:tr` (file: id of the source file, line: its line number) -/
+def parseLine (m l f n t : String) : Option Line := do
   let tr ← nat? t
-  pure { msg := ← nat? m, lvl := ← nat? l, site := ← nat? s, trace := if tr != 0 then some [] else none }
+  pure { msg := ← nat? m, lvl := ← nat? l, file := ← nat? f, line := ← nat? n,
+         trace := if tr != 0 then some [] else none }
+
+/-- strings travel hex-encoded (`-` = empty) -/
+def hexVal (c : Char) : Option Nat :=
+  if '0' ≤ c ∧ c ≤ '9' then some (c.toNat - '0'.toNat)
+  else if 'a' ≤ c ∧ c ≤ 'f' then some (c.toNat - 'a'.toNat + 10) else none
+
+def unhexBytes : List Char → Option (List UInt8)
+  | [] => some []
+  | a :: b :: rest => do
+    let x ← hexVal a
+    let y ← hexVal b
+    let r ← unhexBytes rest
+    pure (UInt8.ofNat (x * 16 + y) :: r)
+  | _ => none
+
+def unhex (s : String) : Option String :=
+  if s == "-" then some "" else do
+    let bs ← unhexBytes s.toList
+    String.fromUTF8? (ByteArray.mk bs.toArray)
+
+/-- the harness' numbering of package names -/
+def pkgId (s : String) : Nat :=
+  if s == "orga" then 0 else if s == "orgb" then 1 else if s == "orgc" then 2 else 9
+
+/-- what a sweep over the severities 1…6 observes of a level in force -/
+def clampLvl (l : Nat) : Nat := if l < 1 then 1 else if l > 7 then 7 else l
 
 def setLast (l : List (Nat × Nat)) (g v : Nat) : List (Nat × Nat) :=
   (g, v) :: l.filter (fun x => x.1 != g)
@@ -105,16 +132,16 @@ def wtoken (d : DS) (tok : String) : Except String DS :=
   | ["empty"] => applyEv d .empty
   | ["timer"] => applyEv d .timer
   | ["ftimeout"] => applyEv d .ftimeout
-  | ["W", m, l, s, t, dp] =>
-    match parseLine m l s t, nat? dp with
+  | ["W", m, l, f, n, t, dp] =>
+    match parseLine m l f n t, nat? dp with
     | some ln, some dups =>
       match d.expW with
       | [] => .error "write-unpredicted"
       | (el, ed) :: rest =>
         if el == ln && ed == dups then .ok { d with expW := rest } else .error "write-differs"
     | _, _ => .error "bad-token"
-  | [k, id, m, l, s, t] =>
-    match parseLine m l s t, splitC id '.' with
+  | [k, id, m, l, f, n, t] =>
+    match parseLine m l f n t, splitC id '.' with
     | some ln, [g, q] =>
       match nat? g, nat? q with
       | some gi, some qi =>
@@ -216,6 +243,20 @@ def handle (d : DS) (line : String) : DS × String :=
           if checkRun d.np (expsOf d) (outs.take n) != .pass then (d, "fail write-after-return")
           else (d, showVerdict (checkRun d.np (expsOf d) outs))
         | none => (d, showVerdict (checkRun d.np (expsOf d) outs))
+  | ["pl", h] =>
+    match unhex h with
+    | some str => (d, s!"n={parseLevel str}")
+    | none => (d, "bad-op")
+  | ["nm", n] =>
+    match nat? n with
+    | some k => (d, s!"s={severityName k}")
+    | none => (d, "bad-op")
+  | "start" :: lf :: pf :: g :: a :: p :: _ =>
+    match unhex lf, unhex pf, parseLevels g a p with
+    | some l, some q, some pre =>
+      let c := startLevels pkgId pre l q
+      (d, s!"thr {clampLvl (threshold c 0)} {clampLvl (threshold c 1)} {clampLvl (threshold c 2)} {c.glob}")
+    | _, _, _ => (d, "bad-op")
   | ["lv", g, a, p, pk, l] =>
     match parseLevels g a p, nat? l with
     | some lv, some li =>
